@@ -407,9 +407,12 @@ class VirtualOperator(abc.ABC):
 
     def __init__(self, *args, **kwargs):
         # list positionals
-        positionals = list(args) + [
-            kwargs.pop(key) for key in set(kwargs) & set(self.POSITIONALS)
-        ]
+        # positional arguments passed by keyword: in the order of POSITIONALS
+        positionals = list(args)
+        for key in self.POSITIONALS[len(args) :]:
+            if key not in kwargs:
+                break
+            positionals.append(kwargs.pop(key))
         keywords = {key: kwargs.pop(key) for key in set(kwargs) & set(self.KEYWORDS)}
         options = kwargs
         # check options
